@@ -515,6 +515,11 @@ pub fn evaluate(cx: &StepCtx<'_>) -> Vec<MonFail> {
                     if a.kind == Kind::Static && a.ptr != b.ptr {
                         out.push(mf("static_alloc", "as_ptr of the static slot changed".to_string()));
                     }
+                    // pop / truncate / clear / clone of a borrowed text keep borrowing it (C10): the handle
+                    // still points at the caller's bytes (a handle whose as_ptr lies in the static area)
+                    if ok && a.kind != Kind::Static {
+                        out.push(mf("static_alloc", format!("read-only op moved a static slot to kind {}", a.kind.letter())));
+                    }
                 }
             }
         }
